@@ -229,15 +229,19 @@ func (op LinearQuantizer) Simulate(vm *VM, instr string) error {
 	sn := float64(op.max)
 	s := sd / sn
 
-	switch *op.pipeline {
+	// The phase of the two-step execution belongs to the processor executing the instruction,
+	// not to the (process-wide) opcode object: keep it in the VM
+	phaseKey := op.lqName + "_pipeline"
+	phase, _ := vm.Extra_states[phaseKey].(uint8)
+	switch phase {
 	case LQPUT:
 		if op.opType == LQMULT || op.opType == LQDIV {
-			*op.pipeline = LQCORR
+			vm.Extra_states[phaseKey] = LQCORR
 		} else {
-			*op.pipeline = LQGET
+			vm.Extra_states[phaseKey] = LQGET
 		}
 	case LQCORR:
-		*op.pipeline = LQGET
+		vm.Extra_states[phaseKey] = LQGET
 	case LQGET:
 		switch op.opType {
 		case LQADD:
@@ -278,7 +282,7 @@ func (op LinearQuantizer) Simulate(vm *VM, instr string) error {
 			}
 		}
 		vm.Pc = vm.Pc + 1
-		*op.pipeline = LQPUT
+		vm.Extra_states[phaseKey] = LQPUT
 	}
 	return nil
 }
